@@ -24,7 +24,7 @@ ASSUMPTIONS = [
 TEXTS = ["", " ", "x", "\"\\/\b\f\n\r\t", "\u00e9", "\u2028", "\U0001F600", "\x00", "z" * 10240]
 DICTS = [[["k", "v"]], [["k", "v"], ["l", "w"]], [["l", "w"], ["k", "v"]], [["q\"uo'te", "v"]], [["", "v"]], [["k", ""]],
          [["{u1}x", "v"], ["p:x", "w"]], [["{http://www.w3.org/XML/1998/namespace}lang", "en"], ["xml:lang", "fr"]], [["p:x", "v"]]]
-NS = [[["p", "u1"]], [["p", "u2"]], [["p", "u1"], ["q", "u3"]], [["q", "u3"], ["p", "u1"]]]
+NS = [[["p", "u1"]], [["p", "u2"]], [["p", "u1"], ["q", "u3"]], [["q", "u3"], ["p", "u1"]], [["null", "u9"], ["None", "u8"]]]
 NAMES = ["b", "a:b cé"]
 
 
